@@ -480,7 +480,7 @@ func (b *ByteSequence) Decode(d *Decoder) error {
 
 	// make the slice with length
 	byteSequence := make([]byte, length)
-	_, err = d.buf.Read(byteSequence)
+	_, err = io.ReadFull(d.buf, byteSequence)
 	if err != nil {
 		return err
 	}
@@ -1058,7 +1058,7 @@ func (bf *Bitfield) Decode(d *Decoder) error {
 	cLog(Cyan, "Decoding Bitfield")
 
 	bytes := make([]byte, AvailBitfieldBytes)
-	_, err := d.buf.Read(bytes)
+	_, err := io.ReadFull(d.buf, bytes)
 	if err != nil {
 		return err
 	}
@@ -3160,7 +3160,7 @@ func (e *ExtrinsicData) Decode(d *Decoder) error {
 	}
 
 	data := make([]byte, length)
-	if _, err := d.buf.Read(data); err != nil {
+	if _, err := io.ReadFull(d.buf, data); err != nil {
 		return err
 	}
 	cLog(Yellow, "ExtrinsicData: %x", data)
